@@ -25,8 +25,9 @@ pub mod thread {
     pub fn current() -> Thread { unimplemented!() }
     /// blocking primitive: never reachable from try_sync (C09); only by a holder that published WaitingForUnpark
     #[verifier::external_body]
-    pub fn park(Tracked(g): Tracked<&mut G>)
+    pub fn park(Tracked(g): Tracked<&mut G>, Ghost(locks): Ghost<u64>)
         requires
+            locks == 0,                                       // OBL C04,C10 no_lock_held_while_blocking
             !old(g).q.nonblocking,                            // OBL C09 nonblocking
         ensures *final(g) == *old(g),
     { unimplemented!() }
